@@ -136,6 +136,12 @@ class C13(Engine):
                           'tier': tier,
                           'seed': mix(seed, 'persisted', name)})
 
+            # ... and one that is written out after it has been compiled
+            # (what the compile left in it must be plain, readable data).
+            items.append({'kind': 'persist-after', 'corpus': name, 'first': 0,
+                          'tier': tier,
+                          'seed': mix(seed, 'persist-after', name)})
+
             if name.startswith('fixture/') \
                     and name[len('fixture/'):] in HEAVY_FIXTURES:
                 continue
@@ -206,6 +212,16 @@ class C13(Engine):
                     and item['corpus'][len('fixture/'):] in HEAVY_FIXTURES:
                 histories = [[('ber', False)], [('uper', True)],
                              [('jer', False)]]
+        elif item['kind'] == 'persist-after':
+            rng = random.Random(item['seed'])
+            histories = [[('ber', False), ('uper', True)],
+                         [('jer', True), ('ber', False)],
+                         [('oer', False), ('xer', False)],
+                         [rng.choice(CONFIGS), rng.choice(CONFIGS)]]
+
+            if item['corpus'].startswith('fixture/') \
+                    and item['corpus'][len('fixture/'):] in HEAVY_FIXTURES:
+                histories = histories[:1]
         else:
             rng = random.Random(item['seed'])
             histories = [[first, rng.choice(CONFIGS), rng.choice(CONFIGS)]
@@ -221,7 +237,8 @@ class C13(Engine):
                 steps_.append({'op': 'compile', 'codec': codec,
                                'numeric_enums': flag})
 
-                if item['kind'] == 'triples' and index == 0:
+                if item['kind'] in ('triples', 'persist-after') \
+                        and index == 0:
                     steps_.append({'op': 'persist'})
 
             case = {'text': text, 'name': item['corpus'], 'steps': steps_,
